@@ -535,7 +535,9 @@ def hmodels(tier):
     # p = 2, a free g and an array parameter a of the variable's shape with a literal value, 'arrf' leaves a free
     akinds = [("alg-Real-2x3", "arrv", "A"), ("alg-Real-2x3", "arrf", "B"), ("alg-Real-1d", "arrv", "B"), ("alg-Real-1d", "arrf", "A")]
     if tier == "thorough":
-        akinds = [(kind, c, r) for kind in ("alg-Real-2x3", "alg-Real-1d", "alg-Real-2d", "state-Real-2x3", "input-Real-2x3", "parameter-Real-2x3")
+        # (no parameter kind: what RSV / RPE / RPV make of a matrix parameter defined by an expression -- pymoca keeps
+        # 3 * <inlined a> as an MX expression, neither a number nor removed -- is not C13's to decide)
+        akinds = [(kind, c, r) for kind in ("alg-Real-2x3", "alg-Real-1d", "alg-Real-2d", "state-Real-2x3", "input-Real-2x3")
                   for c in ("arrv", "arrf") for r in ("A", "B")]
     for kind, ctxn, rot in akinds:
         pre, typ, dims, own, _ = KINDS[kind]
@@ -551,6 +553,14 @@ def hmodels(tier):
 def hkey(spec):
     ctxn, kind, mods = spec
     return "%s|%s|%s" % (ctxn, kind, "+".join("%s=%s%s" % (a, "each-" if mods[a][2] else "", mods[a][0]) for a in mods))
+
+
+def hlabel(spec):
+    """Kind of the history model for signatures; the array models also name what their attributes are made of."""
+    ctxn, kind, mods = spec
+    if ctxn in ("arrv", "arrf"):
+        return "%s[%s]" % (kind, "arr-ctor" if any(fn == "arr-ctor" for fn, e, each in mods.values()) else "arr-param")
+    return kind
 
 
 def hdecls(spec):
@@ -865,7 +875,7 @@ def hcheck(job):
                 continue
             clause, g, a, msg = detail
             at = "closing observation" if i >= len(h) else "event %d" % (i + 1)
-            viol.append(("history-%s:%s:%s:%s:%s" % (clause, spec[1], g, a, hs),
+            viol.append(("history-%s:%s:%s:%s:%s" % (clause, hlabel(spec), g, a, hs),
                          "after the history [%s] on one Model object (%s): %s\n%s" % (hs, at, msg, text), case))
     return viol, cuts, len(hists), n_changed
 
@@ -935,7 +945,7 @@ def run(ctx):
             % (len(KINDS), " of every Real kind" if ctx.tier == "thorough" else " of one scalar Real kind per variable group "
                "(state, algebraic, input, parameter, constant) and a 1-D algebraic",
                "; 2x2; state, input, parameter" if ctx.tier == "thorough" else " algebraic", len(GRID), len(hm),
-               "; 2x2; state, input, parameter" if ctx.tier == "thorough" else " algebraic", hdepth(ctx.tier),
+               "; 2x2; state, input" if ctx.tier == "thorough" else " algebraic", hdepth(ctx.tier),
                "; replace_parameter_expressions + replace_parameter_values together" if ctx.tier == "thorough" else ""),
         }
     )
